@@ -165,10 +165,10 @@ type c18Arrival struct {
 }
 
 type c18Change struct {
-	listKind           string
-	idx                int // index into sets[listKind]
-	t                  int64
-	seqStart, seqDone  int64
+	listKind          string
+	idx               int // index into sets[listKind]
+	t                 int64
+	seqStart, seqDone int64
 }
 
 type c18Update struct {
@@ -185,13 +185,13 @@ type c18SubEv struct {
 }
 
 type c18ListObs struct {
-	sess     int
-	listKind string
-	seqIssue int64
-	tIssue   int64
-	names    string
-	err      string
-	final    bool
+	sess      int
+	listKind  string
+	seqIssue  int64
+	tIssue    int64
+	names     string
+	err       string
+	final     bool
 	inHandler bool
 }
 
@@ -208,27 +208,27 @@ type c18SessRT struct {
 	pair       *vhm.Pair
 	connT      int64 // Connect returned (virtual us); -1 if it never did
 	connSeq    int64
-	closeT     int64 // Close was called; -1 if never
-	closeDoneT int64 // Close returned; -1 if not
-	ackT       map[string]int64 // notification kind -> instant the granting acknowledgement arrived
+	closeT     int64                   // Close was called; -1 if never
+	closeDoneT int64                   // Close returned; -1 if not
+	ackT       map[string]int64        // notification kind -> instant the granting acknowledgement arrived
 	srvWrites  map[string][]c18Arrival // method -> server-side writes (in-memory sessions)
 	recvs      map[string][]c18Arrival // method -> client-side receipts
 	subEvents  map[string][]c18SubEv   // uri -> events
 }
 
 type c18World struct {
-	mu       sync.Mutex
-	log      *vh.Log
-	sets     map[string][]string // list kind -> history of states (sorted, joined names)
-	cur      map[string]map[string]bool
-	nextName int
-	changes  []c18Change
-	updates  []c18Update
-	counters map[string]int
-	lists    []c18ListObs
-	reads    []c18ReadObs
-	sess     []*c18SessRT
-	counts   map[int]int // nonce -> subscriber_count logged by the server
+	mu           sync.Mutex
+	log          *vh.Log
+	sets         map[string][]string // list kind -> history of states (sorted, joined names)
+	cur          map[string]map[string]bool
+	nextName     int
+	changes      []c18Change
+	updates      []c18Update
+	counters     map[string]int
+	lists        []c18ListObs
+	reads        []c18ReadObs
+	sess         []*c18SessRT
+	counts       map[int]int // nonce -> subscriber_count logged by the server
 	pendingNonce int
 	nextNonce    int
 }
@@ -246,8 +246,8 @@ func c18Join(m map[string]bool) string {
 type c18Slog struct{ w *c18World }
 
 func (h c18Slog) Enabled(context.Context, slog.Level) bool { return true }
-func (h c18Slog) WithAttrs([]slog.Attr) slog.Handler        { return h }
-func (h c18Slog) WithGroup(string) slog.Handler             { return h }
+func (h c18Slog) WithAttrs([]slog.Attr) slog.Handler       { return h }
+func (h c18Slog) WithGroup(string) slog.Handler            { return h }
 func (h c18Slog) Handle(_ context.Context, r slog.Record) error {
 	if r.Message != "resource updated notification sent" {
 		return nil
@@ -641,7 +641,7 @@ func runC18(c *vh.Case, spec c18Spec) *c18World {
 			uri := c18URIs[op.URI]
 			w.mu.Lock()
 			w.nextNonce++
-			nonce := w.nextNonce   // unique per call
+			nonce := w.nextNonce    // unique per call
 			w.counters[uri] = nonce // the counter a read returns: monotone per uri
 			w.pendingNonce = nonce
 			w.mu.Unlock()
